@@ -4,7 +4,8 @@ import XrlC06.Gen.Table
 /-!
 # C06 — compound quantities follow the mass-fraction mixture rule
 
-Property theorems only.  Model: `XrlC06/Hand/CP.lean` (mirrors src/cs_cp.c and src/refractive_indices.c as they are);
+Property theorems only (continued in `Props/C06r.lean`: refractive index at full strength for both bodies, agreement of the entry points).
+Model: `XrlC06/Hand/CP.lean` (mirrors src/cs_cp.c and src/refractive_indices.c, each in its as-shipped and its `tmp_error` form);
 specification: `XrlC06/Spec/Mixture.lean` (written from the property text); helper lemmas: `XrlC06/Lemmas/*`.
 
 Quantifiers: every theorem holds for compositions of ANY length (induction over the element list), for ALL outcomes of the
@@ -46,10 +47,16 @@ theorem cp_template_conforms :
     Gen.cpTemplates = [expectedCpTemplate] ∨ Gen.cpTemplates = [expectedCpTemplateFixed] := by
   decide +kernel
 
-/-- the four refractive-index bodies are, line by line, the ones `CP.refrReOf`, `refrImOf`, `refrOf`, `refr2Of` mirror -/
+/-- the four refractive-index bodies are, line by line, the ones `CP.refrReOf`, `refrImOf`, `refrOf`, `refr2Of` mirror (as shipped:
+`value == 0.0` is the failure test) — or, line by line, the bodies after the proposed repair C06-7 that `CP.refrReOfFixed`,
+`refrImOfFixed`, `refrOfFixed`, `refr2OfFixed` mirror (`tmp_error != NULL` is the failure test); never a mixture of the two.
+The check runs the model with the switch the AST shows. -/
 theorem refr_template_conforms :
-    Gen.refr_Refractive_Index_Re.body = expectedRe ∧ Gen.refr_Refractive_Index_Im.body = expectedIm ∧
-    Gen.refr_Refractive_Index.body = expectedCx ∧ Gen.refr_Refractive_Index2.body = expectedCx2 ∧
+    ((Gen.refr_Refractive_Index_Re.body = expectedRe ∧ Gen.refr_Refractive_Index_Im.body = expectedIm ∧
+      Gen.refr_Refractive_Index.body = expectedCx) ∨
+     (Gen.refr_Refractive_Index_Re.body = expectedReFixed ∧ Gen.refr_Refractive_Index_Im.body = expectedImFixed ∧
+      Gen.refr_Refractive_Index.body = expectedCxFixed)) ∧
+    Gen.refr_Refractive_Index2.body = expectedCx2 ∧
     Gen.refrNames = ["Refractive_Index_Re", "Refractive_Index_Im", "Refractive_Index", "Refractive_Index2"] := by
   decide +kernel
 
@@ -298,6 +305,22 @@ theorem cp_temporaries_released_fixed (hc : ∀ Z, Contract (f Z)) (he : error.i
     · rcases hc Z Slot.empty rfl with ⟨x, hx⟩ | ⟨e, hf⟩
       · exact absurd (by simpa [v, valOf_ok hx] using hx) hbad
       · exact ⟨_, cp_element_fails_fixed f error live he _ pre post Z w hr v hpre e hf⟩
+
+/-- repaired body: a name that is neither a formula nor a NIST compound (in particular the NULL pointer, for which both lookups
+answer NULL): error UNKNOWN_COMPOUND, value 0, nothing allocated -/
+theorem cp_unknown_compound_fixed (he : error.isFull = false) :
+    cpFixed (none : Option (Parsed ℝ)) none f error live
+      = .ok ((0, error.withErr ⟨XRL_ERROR_INVALID_ARGUMENT, UNKNOWN_COMPOUND⟩), live) ∧
+    FailsWith (val (cpFixed (none : Option (Parsed ℝ)) none f error live)) error ⟨XRL_ERROR_INVALID_ARGUMENT, UNKNOWN_COMPOUND⟩ := by
+  have h : cpFixed (none : Option (Parsed ℝ)) none f error live
+      = .ok ((0, error.withErr ⟨XRL_ERROR_INVALID_ARGUMENT, UNKNOWN_COMPOUND⟩), live) := by
+    unfold cpFixed cpOfFixed resolve
+    simp only [Resolved.elements, setErr_notFull he, bind_ok, pure_eq_ok, zero_lit]
+  refine ⟨h, by decide, by decide, ?_⟩
+  rw [h]; simp [val, Except.map, zero_lit]
+
+example : cpFixed (none : Option (Parsed ℝ)) none (fun _ s => .ok (1, s)) Slot.empty 3
+    = .ok ((0, Slot.full ⟨1, UNKNOWN_COMPOUND⟩), 3) := (cp_unknown_compound_fixed _ Slot.empty 3 rfl).1
 
 end cp
 
